@@ -71,7 +71,7 @@ def main(tier, only):
     nseeds, nsol = (2, 6) if quick else (6, 20)
     for fi, name in enumerate(("csv", "xml", "rest", "tar")):
         for seed in range(nseeds):
-            cfgs.append(dict(tag="solve.%s.seed%d" % (name, seed), only=["solve"], timeout=to,
+            cfgs.append(dict(tag="solve.%s.seed%d" % (name, seed), only=["solve"], timeout=to, timing_dependent=True,
                              env={"VERIF_WHICH": str(fi), "VERIF_SEED": str(seed), "VERIF_NSOL": str(nsol if name != "tar" else max(3, nsol // 2)),
                                   "VERIF_INST": "1" if quick else "2", "VERIF_SKIP_FEATURES": ",".join(ALL_FEATURES)}))
     run.bounds = dict(
